@@ -674,7 +674,7 @@ func (r *run) exec(st mbt.Step) error {
 				}
 			}
 		}
-		pubKeep := r.pubArr
+		oldWrites := r.pubArr
 		restored, err := r.boot(st.Int("w"), true)
 		if err != nil {
 			if r.violated {
@@ -688,8 +688,30 @@ func (r *run) exec(st mbt.Step) error {
 		}
 		r.reset()
 		if jobSurvives {
-			r.pubArr = pubKeep // the surviving job's snapshot writes are still parked at the store gate
 			r.res.Count("jobSurvived", 1)
+			// snapshot writes of the old assembly still parked at the store gate land now. By design the surviving
+			// job gives them up (the file is removed again or never written); if it publishes one nevertheless, that
+			// checkpoint is what the next recovery loads and is judged like every published checkpoint
+			for n, a := range oldWrites {
+				a.Release()
+				waitDone(call(a), "late snapshot write")
+				time.Sleep(2 * time.Millisecond)
+				kept := false
+				for _, o := range r.c.Published() {
+					if int(o.Ckpt) == n && o.Gen == r.c.Gen() {
+						if _, err := os.Stat(o.Text); err == nil {
+							kept = true
+						}
+					}
+				}
+				if kept {
+					r.res.Count("publishedAfterRestart", 1)
+					r.checkPublished(mbt.Step{"n": float64(n)})
+				} else {
+					r.res.Count("writesGivenUp", 1)
+				}
+			}
+			r.c.ForgetRetention()
 		}
 		r.givens = len(r.c.Givens(0))
 		r.havePrev = restored != 0
